@@ -57,6 +57,27 @@ def run(spec, out):
     Prefix.__init__ = rec_pinit
     from vmon import boot
 
+    # stored data read before the unit modules are imported: objects pickled by another process (where everything was
+    # declared) enter this one through __new__ + restored state while their declarations have not run here yet
+    unpickled_first = []
+    pending_blobs = list(spec.get("foreign_first") or [])
+    load_after = rng.choice([0, 0, 1, 2, 4, 8]) if pending_blobs else None   # number of unit modules imported before the data is read
+    imported_so_far = [0]
+
+    def load_foreign():
+        import base64
+        import pickle
+        while pending_blobs:
+            kind, name, blob = pending_blobs.pop()
+            try:
+                unpickled_first.append((kind, name, pickle.loads(base64.b64decode(blob))))
+                count(f"objects_unpickled_before_their_declaration/{kind}")
+            except Exception as e:
+                count(f"objects_unpickled_before_their_declaration/raised/{type(e).__name__}")
+
+    if load_after == 0:
+        load_foreign()
+
     modules = spec.get("modules", "all")
     # between two imports a program already uses what it has: every prefix + symbol spelling that
     # resolves now is looked up, so that a later module declaring exactly that symbol ('hh' hand after
@@ -64,6 +85,9 @@ def run(spec, out):
     early = {}
 
     def between(name):
+        imported_so_far[0] += 1
+        if load_after is not None and imported_so_far[0] == load_after:
+            load_foreign()
         if not spec.get("lookups_between_imports"):
             return
         for text in ("hh", "cd", "Pa", "ha", "min.", "nmi.", "TR", "Mm", "ft.", "pt.", "dB", "mi.", "Gi", "kn", "au", "at", "Th", "Eh", "PS", "ch.", "yd."):
@@ -149,11 +173,63 @@ def run(spec, out):
         if d.name != name:
             violation(f"C19:shipped-dimension-name-not-bound:{name}", f"Dimension name {name!r} maps to an object reporting {d.name!r}")
 
+    # ---- 1b. what was unpickled before its declaration ran is, after the declaration, the declared object --------
+    stale_base_units = set()
+
+    def twins(u):
+        """base units inside u that are not the registered unit of their name: the pickle brought its own copies"""
+        out = []
+        for f in getattr(u, "factors", {}):
+            if f is One:
+                continue
+            if len(f.factors) == 1 and next(iter(f.factors)) is f:
+                if f.names and Unit._by_name.get(f.names[0]) is not f:
+                    out.append(f)
+            else:
+                out.extend(twins(f))
+        return out
+
+    for kind, name, obj in unpickled_first:
+        if kind in ("unit", "base-unit", "compound"):
+            tw = twins(obj) if kind != "base-unit" else ([obj] if Unit._by_name.get(name) is not obj else [])
+            if tw:
+                for f in tw:
+                    stale_base_units.add(id(f))
+                stale_base_units.add(id(obj))
+                violation("C19:unit-unpickled-before-its-base-units-are-declared-is-a-second-object",
+                          f"{kind} {name or obj!r} was unpickled before the module declaring {[f.names[0] for f in tw][:3]} was imported: the pickle's base units and the declared ones are different objects reporting one name")
+                continue
+        if kind == "compound":
+            continue
+        if kind == "prefix":
+            reg, bysym, sym = Prefix._by_name.get(name), Prefix._by_symbol, getattr(obj, "symbol", None)
+        elif kind == "dimension":
+            reg, bysym, sym = Dimension._by_name.get(name), None, None
+        else:
+            reg, bysym, sym = Unit._by_name.get(name), Unit._by_symbol, (obj.symbols[0] if getattr(obj, "symbols", None) else None)
+        if reg is None:
+            violation(f"C19:declared-after-unpickling-not-bound:{kind}", f"{kind} {name!r} was unpickled before its module was imported; after the import the name is not registered at all")
+        elif reg is not obj:
+            violation(f"C19:declared-after-unpickling-not-bound:{kind}", f"{kind} {name!r} unpickled before its module was imported is not the object registered under that name afterwards")
+        elif bysym is not None and sym and bysym.get(sym) is not obj:
+            violation(f"C19:declared-after-unpickling-not-bound:{kind}", f"{kind} {name!r}: symbol {sym!r} is not registered for it after its declaration ran (lookup gives {bysym.get(sym)!r})")
+    if stale_base_units:
+        # everything interned that is built on such a copy is a copy as well
+        changed = True
+        while changed:
+            changed = False
+            for u in list(Unit._known.values()):
+                if id(u) not in stale_base_units and any(id(f) in stale_base_units for f in getattr(u, "factors", {})):
+                    stale_base_units.add(id(u))
+                    changed = True
+
     # ---- 2. bijection sweep ------------------------------------------------------------------------
     def sweep(tag):
         count("sweeps")
         seen_n, seen_s = {}, {}
         for u in list(Unit._known.values()):
+            if id(u) in stale_base_units:
+                continue   # reported once, under its own key
             if not getattr(u, "_initialized", False):
                 violation("C19:half-built-unit-in-table", f"{tag}: an uninitialised Unit sits in Unit._known")
                 continue
